@@ -1494,3 +1494,152 @@ Example c10_lazy_converse_example :
   is_ok (lazy false (KStr true) (FStr false) 2 w_good) = true.
 Proof. exact lazy_converse_nonvacuous. Qed.
 (* ==== end lazy ==== *)
+
+(* ==== the BCF FILE: header block + record loop (NV.Bcf.File) ==== *)
+From NV Require Import Text.TextBase Vcf.Values Vcf.Line Vcf.Header Vcf.HeaderProofs Vcf.HdrFrameProofs Vcf.File.
+From NV Require Import Bcf.Ints Bcf.Typed Bcf.Strings Bcf.Genotype Bcf.StringMap Bcf.StringMapProofs Bcf.Record
+  Bcf.RecordTyped Bcf.Bridge Bcf.BridgeProofs Bcf.ColumnProofs Bcf.Lazy Bcf.File Bcf.FileProofs.
+
+(* The line reader of the header text (header/vcf_header.rs + read_line): the written lines, each
+   followed by LF, then the NUL, are split into exactly those lines, whatever follows the NUL.
+   hline: the line starts with '#', holds no LF and does not end with CR (C09: every line
+   write_header emits starts with '#'; framed iff hdr_vals_framed). *)
+Theorem bcf_header_text_lines : forall ls X, Forall hline ls ->
+  lines_of [] true (with_lf ls ++ 0%N :: X) = ls.
+Proof. exact lines_of_written. Qed.
+Print Assumptions bcf_header_text_lines.
+
+(* The reader's string maps (StringMaps::insert_entry for every parsed line, in LINE order) are the
+   writer's (StringMaps::try_from(&Header): contigs; INFO, FILTER, FORMAT) on every header the VCF
+   header writer accepts -- equal as results, errors included -- and the written text reaches
+   Parser State::Done (it has its #CHROM line). *)
+Theorem bcf_header_string_maps_agree : forall h ls, header_ok h -> Header.write_header h = Some ls ->
+  maps_of_lines ls = maps_of_header h /\ has_chrom_line ls = true /\ ls <> [].
+Proof. exact written_maps. Qed.
+Print Assumptions bcf_header_string_maps_agree.
+
+(* The dictionaries of a header the writer accepts are well formed (every record theorem asks it). *)
+Theorem bcf_header_string_maps_wf : forall h s c, maps_of_header h = Some (s, c) -> wf s /\ wf c.
+Proof. exact maps_of_header_wf. Qed.
+Print Assumptions bcf_header_string_maps_wf.
+
+(* THE HEADER BLOCK.  Writer::write_header (magic, version 2.2, StringMaps::try_from, the VCF header
+   text, CString NUL check, l_text as u32) followed by ANY bytes is read by read_header as the same
+   header value with the writer's string maps, and the reader stands exactly at those bytes.
+   header_ok + hdr_defs_ok: C09's domain of c09_header_roundtrip and the reserved-definition check;
+   hdr_vals_framed: no LF inside / CR at the end of a header string (C09: iff every written line is
+   framed).  The writer's own rejections (IDX conflict, a NUL in the text, text >= 4 GiB, the VCF
+   header writer's InvalidInput) are in the premise write_prefix h = Some p. *)
+Theorem c10_header_block_roundtrip : forall h p rest,
+  header_ok h -> hdr_defs_ok h = true -> hdr_vals_framed h ->
+  write_prefix h = Some p ->
+  exists s c, maps_of_header h = Some (s, c) /\ read_prefix (p ++ rest) = FOk (h, s, c, rest).
+Proof. exact prefix_roundtrip. Qed.
+Print Assumptions c10_header_block_roundtrip.
+
+(* The repaired short-read checks (b36f6c8 / 9b91450).  Whatever read_header accepts holds the
+   magic, two version bytes, l_text and ALL l_text bytes of the text (a stream that ends earlier is
+   UnexpectedEof or, when a cut line does not parse, InvalidData -- never a header) ... *)
+Theorem c10_header_block_complete : forall bs h s c rest,
+  read_prefix bs = FOk (h, s, c, rest) ->
+  exists v lb text,
+    bs = magic ++ v ++ lb ++ text ++ rest /\ length v = 2%nat /\ length lb = 4%nat /\
+    Z.of_nat (length text) = le_val lb.
+Proof. exact read_prefix_complete. Qed.
+Print Assumptions c10_header_block_complete.
+
+(* ... so no proper prefix of a written header block is read as a header. *)
+Theorem c10_header_block_truncated_is_error : forall h p k x,
+  write_prefix h = Some p -> (k < length p)%nat -> read_prefix (firstn k p) <> FOk x.
+Proof. exact prefix_truncated_rejected. Qed.
+Print Assumptions c10_header_block_truncated_is_error.
+
+(* What write_record emits is one frame: when the reader accepts the record, its next read starts
+   right after it (l_shared is never 0, which the reader takes for the end of the stream). *)
+Theorem bcf_written_record_is_one_frame : forall s c hc rlen r b rest,
+  bcf_write s c hc rlen r = Ok b -> dec_frame (b ++ rest) <> None ->
+  exists sb ib, dec_frame (b ++ rest) = Some (sb, ib, rest).
+Proof. exact written_frame. Qed.
+Print Assumptions bcf_written_record_is_one_frame.
+
+(* The record loops over the written records.  rec_rt / rec_rt_lazy: the record is accepted by the
+   writer and read back as [back] whatever follows it (the conclusion of the record theorems).
+   Eager: ONE RecordBuf reused through the loop (bcf_read_into, threaded).  Both end with Ok(0). *)
+Theorem c10_file_record_loop : forall s c hc rs backs,
+  Forall2 (rec_rt s c hc) rs backs ->
+  forall body fuel prev, write_records s c hc rs = Ok body -> (length body < fuel)%nat ->
+  read_eager fuel s c hc prev body = (backs, EndEof).
+Proof. exact read_eager_written. Qed.
+Print Assumptions c10_file_record_loop.
+
+Theorem c10_file_record_loop_lazy : forall s c hc rs backs,
+  Forall2 (rec_rt_lazy s c hc) rs backs ->
+  forall body fuel, write_records s c hc rs = Ok body -> (length body < fuel)%nat ->
+  read_lazy fuel s c hc body = (backs, EndEof).
+Proof. exact read_lazy_written. Qed.
+Print Assumptions c10_file_record_loop_lazy.
+
+(* THE FILE THEOREM.  A header and records written as ONE BCF stream (write_header, then
+   write_variant_record per record, with the writer's own string maps and the lookup tables of the
+   header, hctx_of_header) are read back by read_header + the read_record_buf loop as the same
+   header and, record by record, what the record theorems say (a record with sample rows: bback,
+   i.e. itself with every row completed, c10_bcf_record_roundtrip; a sites-only record: itself,
+   c10_bcf_sites_roundtrip), and the loop ends with Ok(0).  The per-record domain is stated under
+   the string maps of the header (file_rec_dom). *)
+Theorem c10_file_roundtrip : forall hd rs backs bs,
+  header_ok hd -> hdr_defs_ok hd = true -> hdr_vals_framed hd ->
+  (forall s c, maps_of_header hd = Some (s, c) -> Forall2 (file_rec_dom s c (hctx_of_header hd)) rs backs) ->
+  bcf_write_file hd rs = Ok bs ->
+  bcf_read_file bs = FOk (hd, (backs, EndEof)).
+Proof. exact file_roundtrip. Qed.
+Print Assumptions c10_file_roundtrip.
+
+(* the same with the per-record premise left abstract (any record that round-trips) ... *)
+Theorem c10_file_roundtrip_gen : forall hd rs backs bs,
+  header_ok hd -> hdr_defs_ok hd = true -> hdr_vals_framed hd ->
+  (forall s c, maps_of_header hd = Some (s, c) -> Forall2 (rec_rt s c (hctx_of_header hd)) rs backs) ->
+  bcf_write_file hd rs = Ok bs ->
+  bcf_read_file bs = FOk (hd, (backs, EndEof)).
+Proof. exact file_roundtrip_gen. Qed.
+Print Assumptions c10_file_roundtrip_gen.
+
+(* ... and through the LAZY path (read_record + RecordBuf::try_from_variant_record =
+   lazy_read_hdr).  PARTIAL: the per-record premise is the lazy read-back of each written record
+   (rec_rt_lazy); it is connected to the eager read-back only record-wise and up to trec_norm
+   (c10_lazy_eq_eager, under lazy_agree), not yet at file level. *)
+Theorem c10_file_roundtrip_lazy_partial : forall hd rs backs bs,
+  header_ok hd -> hdr_defs_ok hd = true -> hdr_vals_framed hd ->
+  (forall s c, maps_of_header hd = Some (s, c) -> Forall2 (rec_rt_lazy s c (hctx_of_header hd)) rs backs) ->
+  bcf_write_file hd rs = Ok bs ->
+  bcf_read_file_lazy bs = FOk (hd, (backs, EndEof)).
+Proof. exact file_roundtrip_lazy_gen. Qed.
+Print Assumptions c10_file_roundtrip_lazy_partial.
+
+Definition c10_file_roundtrip_lazy_full_statement : Prop := forall hd rs backs bs,
+  header_ok hd -> hdr_defs_ok hd = true -> hdr_vals_framed hd ->
+  (forall s c, maps_of_header hd = Some (s, c) -> Forall2 (file_rec_dom s c (hctx_of_header hd)) rs backs) ->
+  bcf_write_file hd rs = Ok bs ->
+  exists lbacks, bcf_read_file_lazy bs = FOk (hd, (lbacks, EndEof)) /\
+    Forall2 (fun l e => content (h_v44 (hctx_of_header hd)) l = content (h_v44 (hctx_of_header hd)) e) lbacks backs.
+
+(* non-vacuity: a VCF 4.3 header with a contig, an INFO Integer with an explicit IDX, a FILTER, a
+   FORMAT key and one sample; a record with that INFO field, GT and DP; the stream is written, and
+   both loops read the header and the record back and end with Ok(0) *)
+Definition exf_r : vrec :=
+  {| r_chrom := [99]%N; r_pos := 7%N; r_ids := []; r_ref := [65]%N; r_alts := [[67]%N];
+     r_qual := None; r_filters := [[113; 49; 48]%N]; r_info := [([68; 80]%N, Some (VInteger 300))];
+     r_keys := [[71; 84]%N; [68; 80]%N];
+     r_samples := [[Some (VGenotype [(Some 0%N, false); (Some 1%N, false)]); Some (VInteger 12)]] |}.
+
+Example c10_file_example :
+  exists bs, bcf_write_file exf_h [(1, exf_r); (1, exf_r)] = Ok bs /\
+    bcf_read_file bs = FOk (exf_h, ([exf_r; exf_r], EndEof)) /\
+    bcf_read_file_lazy bs = FOk (exf_h, ([exf_r; exf_r], EndEof)) /\
+    read_prefix (firstn 7 bs) = FEof /\ read_prefix (firstn 40 bs) = FData /\
+    header_ok exf_h /\ hdr_defs_ok exf_h = true /\ hdr_vals_framed exf_h.
+Proof.
+  eexists. split; [vm_compute; reflexivity|]. split; [vm_compute; reflexivity|].
+  split; [vm_compute; reflexivity|]. split; [vm_compute; reflexivity|]. split; [vm_compute; reflexivity|].
+  split; [exact exf_ok|]. split; [vm_compute; reflexivity|exact exf_framed].
+Qed.
+(* ==== end file ==== *)
